@@ -79,6 +79,23 @@ GRID_SPEC = wbspec.spec(wbspec.sheet('S1', {
     'S1': '=IF(B1>=-99,A1,0)%', 'T1': '=IF(B1<-99,0,A1)%', 'U1': '=SUM(A1)%', 'V1': '=(A1)%', 'W1': '=MAX(A1,A1)%', 'X1': '=IFERROR(A1,0)%', 'Y1': '=(A1+0)%',
     'O1': '=ROUNDDOWN(A1,ROUND(B1,0))', 'P1': '=ROUND(A1,COUNT(B1:B1)+B1-1)', 'Q1': '=ROUNDUP(A1,MAX(B1,-99))', 'R1': '=ROUNDDOWN(A1,SUM(B1,Z9))'}))
 FCELL = {'ROUND': 'C1', 'ROUNDUP': 'D1', 'ROUNDDOWN': 'E1'}
+# a rounding function directly inside a rounding function, digit counts written as literals: every call rounds the value it is GIVEN
+# (2.445 -> 2.45 -> 2.5, not 2.4), innermost first
+NESTED = {'AA1': [('ROUND', 2), ('ROUND', 1)], 'AB1': [('ROUND', 3), ('ROUND', 1)], 'AC1': [('ROUNDUP', 2), ('ROUNDUP', 1)], 'AD1': [('ROUNDDOWN', 3), ('ROUNDDOWN', 0)],
+          'AE1': [('ROUNDDOWN', 2), ('ROUND', 1)], 'AF1': [('ROUND', 2), ('ROUNDUP', 1)], 'AG1': [('ROUND', 1), ('ROUND', 2)], 'AH1': [('ROUND', 3), ('ROUND', 2), ('ROUND', 1)],
+          'AI1': [('ROUND', 2), ('ROUND', 0)], 'AJ1': [('ROUND', 0), ('ROUND', -1)], 'AK1': [('ROUNDUP', 3), ('ROUND', 2)], 'AL1': [('ROUND', 3), ('ROUNDDOWN', 2)]}
+for _a, _chain in NESTED.items():
+    _f = 'A1'
+    for _fn, _n in _chain:
+        _f = f'{_fn}({_f},{_n})'
+    GRID_SPEC['sheets'][0]['cells'][_a] = '=' + _f
+
+
+def expected_nested(chain, text):
+    d = Decimal(text)
+    for fn, n in chain:
+        d = d.quantize(Decimal(1).scaleb(-n), rounding=MODES[fn], context=_CTXBIG)
+    return float(d)
 
 
 def _monitor(r):
@@ -146,6 +163,16 @@ def run_grid(shard, ctx):
                 changed = _check(r, fn, text, n, out, 'override', mon)
                 if changed or is_tie(text, n):
                     nt += 1
+        # nested calls once per value
+        for (cell, chain), o_ in zip(NESTED.items(), book.values(0, list(NESTED), [(0, 'A1', x)])):
+            r.ev()
+            r.count('nested_rounding_checked')
+            e_ = expected_nested(chain, text)
+            if e_ != expected_nested(chain[-1:], text):
+                nt += 1
+                r.count('nested_rounding_differs_from_one_step')
+            if not outcome_matches(o_, [e_], exact=True):
+                report(r, ID, None, {'fn': 'nested', 'text': text, 'how': 'nested:' + GRID_SPEC['sheets'][0]['cells'][cell]}, o_.brief(), e_, monitor='decimal-quantize')
         # percent once per value
         out = book.value(0, 'F1', [(0, 'A1', x)])
         r.ev()
@@ -342,7 +369,7 @@ def run_shard(shard, ctx):
         text = c['text']
         sign = '-' if text.startswith('-') else ''
         ip, f = text.lstrip('-').split('.')
-        if c['fn'] == '%':
+        if c['fn'] in ('%', 'nested'):
             run_grid({'sign': sign, 'ip': int(ip), 'f': int(f), 'digits': 0}, ctx)
         else:
             run_grid({'sign': sign, 'ip': int(ip), 'f': int(f), 'digits': c['digits'], 'fn': c['fn']}, ctx)
